@@ -325,6 +325,7 @@ func prFinal(spec *xferSpec, c07 bool) func(m *Sim, x *Exec, r *xferResult) {
 			checkDelivery(m, "delivery", st, r.Written[st.SID], r.Read[st.SID], r.Drained)
 		}
 		f := runWireMonitors(m, x, monOpts{})
+		lateReads(m, spec, r)
 		if c07 {
 			fullyDeliveredOracle(m, x, spec, f, r)
 			forwardTSNOracle(m, x, spec, f)
@@ -512,6 +513,34 @@ func propC07(j *Job) {
 		}
 	}
 	cases = append(cases, famW5(modes, 2)...)
+	// a partially reliable stream alone on the association: consecutive TSNs belong to
+	// consecutive messages, so one FORWARD-TSN covers a lost message together with later ones the
+	// receiver already holds completely (they must be handed to the reader parked in ReadSCTP)
+	for _, mode := range modes {
+		for _, lost := range [][]int{{0}, {1}, {0, 2}, {1, 2}} {
+			for _, un := range []bool{false, true} {
+				var msgs []msgSpec
+				for i := 0; i < 5; i++ {
+					msgs = append(msgs, msgSpec{Size: 20 + i, PPI: 53})
+				}
+				var kills []killRule
+				for _, l := range lost {
+					kills = append(kills, killRule{SID: 1, Msg: l, Frag: -1, N: 1})
+				}
+				spec := &xferSpec{
+					A: withBase(mode.A, 100, 0xFFFFFFFC, 4000), B: withBase(mode.B, 100, 50, 4000),
+					Streams: []streamSpec{{SID: 1, From: 0, Unordered: un, RelType: ReliabilityTypeRexmit, RelVal: 0, Gap: 2 * time.Millisecond, Msgs: msgs}},
+					Faults:  faultSet{Drop: true, Late: true},
+					Kill:    kills,
+				}
+				k := 0
+				if j.Thorough() {
+					k = 1
+				}
+				cases = append(cases, xferCase{Name: fmt.Sprintf("P1/%s/U%v/lost%v", mode.Name, un, lost), K: k, Spec: spec})
+			}
+		}
+	}
 	cases = append(cases, famM1(modes, j.Thorough())...)
 	if j.Thorough() {
 		cases = append(cases, famKS(modes, 3, true, []time.Duration{0, 300 * time.Millisecond}, 4)...)
